@@ -124,6 +124,8 @@ func mkDHCP(sp dhcpSpec, rng *lib.Rand) (frame []byte, cidLoc, nameLoc, reqLoc s
 	}
 	if sp.typ == 1 {
 		cls, reqLoc = 0, optReq
+	} else if sp.typ != 3 { // DECLINE / RELEASE / INFORM: the model reads neither
+		cls, reqLoc = 0, "-"
 	}
 	return
 }
